@@ -1,7 +1,7 @@
 (* C07Check: correspondence checker for copies.  Encodings are canonical (Buildable arguments in
    signature order, empty tag sets dropped): the property is about callables, arguments, tags and
    sharing, not about dict insertion order. *)
-From Fiddle Require Import PyBase PySlice Sig ArgStore PyCall Heap Traverse Copy.
+From Fiddle Require Import PyBase PySlice Sig ArgStore PyCall Heap Traverse Copy Build_proofs Copy_proofs.
 
 Inductive ckind := CDeep | CPickle | CShallow | CCast (k : bkind).
 
@@ -21,7 +21,7 @@ Definition check_iso (n : nat) (h1 : heap) (r1 : ref) (h2 : heap) (r2 : ref) : b
 
 Definition check_case (c : case) : bool :=
   let e := c_env c in let h := c_heap c in
-  wf_b e h &&
+  wf_b e h && keys_ok_b h && heap_canonical_b e h &&   (* the hypotheses of the C07 theorems *)
   match c_kind c with
   | CDeep | CPickle =>
       match deepcopy e (match c_kind c with CPickle => true | _ => false end) h (c_root c) with
